@@ -53,7 +53,7 @@ def check(an, rep, tier):
     wh = {'transformation.truncate', 'svd.matrix_svd', 'svd.matrix_skeleton',
           'act_many.add_many'}
     runs = sweep(an, rep, ['transformation.truncate', 'act_many.add_many'], ds,
-                 rules=S_RULES + ['U-cmp', 'O-gram'], wheres=wh)
+                 rules=S_RULES + ['U-cmp', 'U-cmp-lg', 'O-gram'], wheres=wh)
     for r in runs:
         if r.qualname != 'transformation.truncate':
             continue
@@ -144,6 +144,7 @@ def check(an, rep, tier):
     rep.floor('O-sweep', 4, 'sweep typestates')
     rep.floor('O-gram', 3, 'selectors')
     rep.floor('U-cmp', 2, 'threshold comparisons')
+    rep.floor('U-cmp-lg', 1, 'threshold scale in the stabilised mode')
     rep.floor('F-rank', 2, 'rank formulas')
     rep.floor('P-forward', 3, 'forwarded caps')
     rep.floor('S-ret', 8, 'results')
